@@ -679,7 +679,7 @@ class GPyTorchModelListExactModel(GPyTorchModel, ModelList):
         :rtype: tuple[np.ndarray, np.ndarray]
         """
         lengthscales = np.zeros((len(self.model.models), self.input_dim))
-        variances = np.zeros(self.input_dim)
+        variances = np.zeros(len(self.model.models))
         for model_i, model in enumerate(self.model.models):
             cov_module = model.covar_module
             lengthscale = cov_module.base_kernel.lengthscale.squeeze().numpy(force=True)
